@@ -8,8 +8,7 @@ CFG = {
             "relaysched",
             160,
             2400
-        ]
-    ],
+        ], ["relayinactive", 3, 20]],
     "rule": "relaysched: a real relay channel (spying RelayHost/RelayCall, RelayTimerVerification on) between two raw TCP peers; the engine lets ONE relay goroutine run at a time from one schedule point (relay.nonCallReq.afterGet, relay.Receive.afterGet, relayTimer.OnTimer, relay.timeout.afterEntomb) to the next, in an order chosen by a seeded walk after one of 8 directed prefixes: single/multi-frame request and response, error frame (also after a first fragment, late frames after the terminal), the known window (non-final frame looked up, then the origin timeout), every rejection path of handleCallReq, arg2 appends with 1/2 fragments or failing (also with a full destination buffer), 2-3 concurrent calls, request streaming with cancel; random: next caller/destination frame, continue a parked goroutine, fire the timeout of the originating or destination item, fill/drain the send buffer of either connection, lose a connection, graceful close. At the end every parked goroutine continues and every remaining timeout fires; 24 relays per run are kept until the 3 s tombstone GC has run and are then closed gracefully. The macro schedule is replayed by the extracted model (run_relaysched); compared: spy log, frames received by both peers, state/pending/items/tombstones of both connections. Non-trivial = more than two callbacks; distinct by schedule.",
     "trusted_base": COMMON_TRUSTED + [
         "modelled by hand (tied by correspondence): relay.go relayItems Get/Add/Delete/Entomb, Relayer.Receive, handleCallReq (all rejection paths), handleNonCallReq, addRelayItem, timeoutRelayItem, failRelayItem, finishRelayItem, decrementPending, relayFragmentSender.flushFragment; relay_timer_pool.go Start/Stop/OnTimer/Release/verifyNotReleased; regenerated from source each run: finishesCall, frameTypeFor, relayRoute (handleFrameRelay), determinesCallSuccess, isCallResOK, hasMoreFragments, message type / frame type / connection state / error code constants",
